@@ -50,26 +50,30 @@ def _global_allowed(name):
 
 
 def _exempt(name):
-    return (name, '*') in TB.DOCUMENTED_INPLACE
+    return (name, '*') in TB.DOCUMENTED_INPLACE or name.split('[')[0] in TB.OWN_STATE_INPLACE
 
 
 def pregen(ctx):
     res = _res()
     attr_id = {}
+
+    def akey(e, p):          # attributes are identified per class
+        return (res.pkg.funcs[e.qual].cls, p.split('.', 1)[1])
     for e in res.entries:
         for p in e.params[e.n_explicit:]:
-            attr_id.setdefault(p.split('.', 1)[1], len(attr_id))
+            attr_id.setdefault(akey(e, p), len(attr_id))
     expected = sorted(_expected_mutators(ctx))
     L = ['Definition gtop : list nat := [0; 1; 2].']
     L.append('Definition exempt_inplace : list bool := [' + '; '.join('true' if _exempt(e.name) else 'false' for e in res.entries) + '].')
     L.append('Definition global_allowed : list bool := [' + '; '.join('true' if _global_allowed(e.name) else 'false' for e in res.entries) + '].')
     ap, ax = [], []
     for e in res.entries:
-        pairs = [(i, attr_id[p.split('.', 1)[1]]) for i, p in enumerate(e.params) if i >= e.n_explicit]
+        pairs = [(i, attr_id[akey(e, p)]) for i, p in enumerate(e.params) if i >= e.n_explicit]
         ap.append('[' + '; '.join(f'({i}, {a})' for i, a in pairs) + ']')
-        ax.append('[' + '; '.join(f'({e.vars[p]}, {attr_id[p.split(".", 1)[1]]})' for p in e.params[e.n_explicit:]) + ']')
+        ax.append('[' + '; '.join(f'({e.vars[p]}, {attr_id[akey(e, p)]})' for p in e.params[e.n_explicit:]) + ']')
     L.append('Definition attr_params : list (list (nat * nat)) := [' + ';\n  '.join(ap) + '].')
     L.append('Definition attr_exit : list (list (nat * nat)) := [' + ';\n  '.join(ax) + '].')
+    L.append('Definition n_self : list nat := [' + '; '.join('1' if (res.pkg.funcs[e.qual].cls and res.pkg.funcs[e.qual].kind in ('method', 'property')) else '0' for e in res.entries) + '].')
     L.append('Definition expected_mutators : list string := [' + '; '.join(f'"{n}"' for n in expected) + '].')
     path = os.path.join(ctx.build, 'gen', 'C19effects.v')
     pyfx.emit_coq(res, path, L)
@@ -166,6 +170,10 @@ def _cands(pname, ann, default, r, case):
         out += [arr(r.standard_normal(40))]
     elif P in ('lat', 'latitude', 'lon', 'longitude', 'az', 'elev', 'angle', 'ang', 'lat0', 'lon0', 'phi', 'theta', 'psi'):
         out += [float(r.uniform(-60, 60)), np.array(float(r.uniform(-60, 60))), r.uniform(-60, 60, 3)]
+    elif P in ('z', 'y0', 'x0', 'z0', 'ratio', 'a_local', 'alpha', 'gain', 'threshold',) and 'ndarray' not in ann:
+        out += [float(r.uniform(0.1, 0.9))]
+    elif P in ('omega', 'q_am', 'q_omega', 'state', 'db', 'b'):
+        out += [arr(r.standard_normal(3) * 0.1) if P in ('omega', 'db', 'b') else arr(_quat(r, True))]
     elif P in ('h', 'height', 'slant', 'n', 'e', 'd', 'u', 'dt', 'frequency', 'h0', 'alt', 'distance', 'up', 'east', 'north', 'down'):
         out += [float(r.uniform(0.5, 100.0))]
     elif P in ('in_deg', 'degrees', 'inplace', 'versor', 'versors', 'as_angles', 'deg'):
@@ -270,7 +278,7 @@ def synthesize(qual, case):
     held = {}
     if isinstance(obj, property):
         inst, held = _instance(owner, r, case)
-        return (lambda a, k, o=obj, i=inst: o.fget(i)), [inst], {}, held, []
+        return (lambda i, o=obj: o.fget(i)), [inst], {}, held, None
     fn = obj.__func__ if isinstance(obj, (staticmethod, classmethod)) else obj
     sig = inspect.signature(fn)
     params = list(sig.parameters.values())
@@ -291,13 +299,19 @@ def synthesize(qual, case):
             continue
         if p.kind == p.VAR_KEYWORD:
             if isctor and owner is not None and owner.__name__ not in ('Quaternion', 'QuaternionArray', 'DCM') and case % 2 == 1:
-                kwargs['q0'] = _quat(r, True)
+                kwargs['q0'] = [_quat(r, True)]
+            if isctor and owner is not None and owner.__name__ == 'FLAE':
+                kwargs['weights'] = [np.array([2.0, 2.0])]
             continue
         ann = p.annotation if isinstance(p.annotation, str) else getattr(p.annotation, '__name__', str(p.annotation))
         c = _cands(p.name, ann, p.default, r, case)
         if p.name == 'method':
             ms = _METHODS.get(short) or _METHODS.get(owner.__name__ if owner else '', None)
             c = [ms[case % len(ms)]] if ms else []
+        if str(ann).replace('Optional[', '').rstrip(']') in TB.SCALAR_ANN:
+            c = [v for v in c if isinstance(v, (int, float, str, bool))]       # the documented type: no array is passed for a float
+        if (qual, p.name) in TB.RANK1:
+            c = [v for v in c if np.ndim(v) == 1]                               # documented as ONE sample / ONE quaternion
         if not c:
             if p.default is not p.empty:
                 continue
@@ -376,8 +390,8 @@ def observe(qual, case):
     except Exception as e:
         return {'status': 'uncovered', 'why': f'{type(e).__name__}: {e}'[:120]}
     last = None
-    for j in range(3):
-        def build():
+    for j in [(case + t_) % 3 for t_ in range(3)]:      # case 0 starts with single samples, case 1 with batches, case 2 mixed
+        def build(j=j):
             # synthesis is deterministic in (qual, case): building twice gives equal, independent arguments, and the
             # instance of a method still shares memory with the arrays its constructor was given
             fn_, a, cand_, h, ctor_ = synthesize(qual, case)
@@ -408,6 +422,9 @@ def observe(qual, case):
             if p.startswith('self'):
                 arr = [a for (pp, a, *_r) in before if pp == p][0]
                 res['state_mutated'].append(p)
+                for hk, hv in h1.items():        # object state that IS an array the caller handed to the constructor
+                    if isinstance(hv, np.ndarray) and np.shares_memory(arr, hv) and hk not in res['mutated']:
+                        res['mutated'].append(hk)
             else:
                 res['mutated'].append(p)
         # repeatability: a second call on equal (fresh) arguments returns the same value
@@ -599,6 +616,8 @@ def correspondence(ctx):
             me = f.params[0] if (f and f.cls and f.kind in ('method', 'property') and f.params) else 'self'
             for s_ in state:
                 pn = s_.replace('self', me, 1)
+                if pn == me and (f'{me}.A' in allowed or f'{me}.array' in allowed):
+                    continue        # an ndarray subclass of this package IS a view of its own .A / .array buffer
                 if pn not in allowed and not (pn == me and me in allowed):
                     # object state the model says is untouched
                     miss.add(s_)
